@@ -195,3 +195,71 @@ Lemma prim_utf8_ref_trusts_lead_byte_refuted :
 Proof.
   exists [97; 240], 1. split; [cbn; lia|]. intros [_ [_ H]]. vm_compute in H. apply H. reflexivity.
 Qed.
+
+(** * the repaired string-ref / string-set!: no premise on the bytes any more *)
+
+Lemma prim_utf8_ref_checked_safe p i : 0 <= i < Z.of_nat (length p) ->
+  match prim_utf8_ref_checked p i with POk rs => Forall in_bounds rs | PErr _ => True end.
+Proof.
+  intros Hi. unfold prim_utf8_ref_checked. cbv zeta.
+  pose proof (utf8_ref_len_bounds (nth (Z.to_nat i) p 0)) as Hb.
+  destruct (nth (Z.to_nat i) p 0 <? 128).
+  { constructor; [|constructor]. unfold in_bounds, data_cap. cbn [r_off r_len r_cap]. lia. }
+  destruct ((nth (Z.to_nat i) p 0 <? 192) || (247 <? nth (Z.to_nat i) p 0)).
+  { constructor; [|constructor]. unfold in_bounds, data_cap. cbn [r_off r_len r_cap]. lia. }
+  destruct (Z.ltb_spec (Z.of_nat (length p) - i) (utf8_ref_len (nth (Z.to_nat i) p 0))) as [Hlt|Hge]; [exact I|].
+  constructor; [|constructor]. unfold in_bounds, data_cap. cbn [r_off r_len r_cap]. lia.
+Qed.
+
+(** the error is raised only for a lead byte that really is cut off (the repair is not stricter than needed) *)
+Lemma prim_utf8_ref_checked_complete p i : 0 <= i < Z.of_nat (length p) ->
+  i + utf8_ref_len (nth (Z.to_nat i) p 0) <= Z.of_nat (length p) ->
+  prim_utf8_ref_checked p i = POk [prim_utf8_ref p i].
+Proof.
+  intros Hi Hc. unfold prim_utf8_ref_checked, prim_utf8_ref, utf8_ref_len in *. cbv zeta.
+  destruct (nth (Z.to_nat i) p 0 <? 128); [reflexivity|].
+  destruct ((nth (Z.to_nat i) p 0 <? 192) || (247 <? nth (Z.to_nat i) p 0)); [reflexivity|].
+  match goal with |- (if ?a <? ?b then _ else _) = _ => destruct (Z.ltb_spec a b) as [Hlt|Hge] end; [lia|reflexivity].
+Qed.
+
+Example ex_utf8_ref_checked_truncated : prim_utf8_ref_checked [97; 240] 1 = PErr ERange.
+Proof. reflexivity. Qed.
+Example ex_utf8_ref_checked_whole : prim_utf8_ref_checked [97; 240; 159; 152; 128] 1 = POk [mkreg 6 1 4].
+Proof. reflexivity. Qed.
+
+Lemma utf8_initial_count_bounds c : 0 <= c -> 1 <= utf8_initial_count c <= 4.
+Proof.
+  intros Hc. unfold utf8_initial_count. destruct (c <? 192); [lia|]. destruct (c <? 224); [lia|].
+  pose proof (Z.mod_pos_bound (c / 16) 2 ltac:(lia)). lia.
+Qed.
+
+Lemma prim_utf8_set_safe p i n : (forall k, 0 <= nth k p 0) -> 0 <= i < Z.of_nat (length p) -> 1 <= n <= 4 ->
+  Forall in_bounds (prim_utf8_set true p i n).
+Proof.
+  intros Hp Hi Hn. unfold prim_utf8_set. cbv zeta.
+  pose proof (utf8_initial_count_bounds (nth (Z.to_nat i) p 0) (Hp _)) as Hb.
+  set (size := Z.of_nat (length p)) in *. set (old0 := utf8_initial_count (nth (Z.to_nat i) p 0)) in *.
+  cbn [andb].
+  destruct (Z.ltb_spec (size - i) old0) as [Hcut|Hfit];
+    match goal with |- Forall _ (if ?a =? ?b then _ else _) => destruct (Z.eqb_spec a b) as [He|He] end;
+    repeat constructor; unfold data_cap; cbn [r_off r_len r_cap]; lia.
+Qed.
+
+(** the pinned code (old_len straight from the lead byte) computes a NEGATIVE copy length for a lead byte cut off by the end
+    of the string: "aaaa\xf0", (string-set! s 4 #\b): memcpy(q+5, p+8, -2) *)
+Lemma prim_utf8_set_unclamped_refuted :
+  exists p i n, (forall k, 0 <= nth k p 0) /\ 0 <= i < Z.of_nat (length p) /\ 1 <= n <= 4 /\
+                ~ Forall in_bounds (prim_utf8_set false p i n).
+Proof.
+  exists [97; 97; 97; 97; 240], 4, 1. split.
+  { intros k. do 6 (destruct k as [|k]; [cbn; lia|]). cbn. lia. }
+  split; [cbn; lia|]. split; [lia|]. intros H.
+  inversion H as [|r1 l1 _ H1]; subst. inversion H1 as [|r2 l2 _ H2]; subst. inversion H2 as [|r3 l3 Hb _]; subst.
+  unfold in_bounds in Hb. vm_compute in Hb. destruct Hb as [_ [Hb _]]. apply Hb. reflexivity.
+Qed.
+
+Example ex_utf8_set_clamped : prim_utf8_set true [97; 97; 97; 97; 240] 4 1 = [mkreg 6 4 1].
+Proof. reflexivity. Qed.
+Example ex_utf8_set_resize : prim_utf8_set true [97; 206; 187; 98] 1 1
+  = [mkreg 5 0 1; mkreg 4 0 1; mkreg 5 3 2; mkreg 4 2 2; mkreg 4 1 1].
+Proof. reflexivity. Qed.
